@@ -1,5 +1,5 @@
 """C12 -- persistent session: in-flight publishes survive loss, resume on the next connection."""
-from ..monitor import Monitor, V, pubs, rx_packets, fires, writes, pending_before, CONNECTED_P
+from ..monitor import Monitor, V, pubs, accepted, rx_packets, fires, writes, pending_before, CONNECTED_P
 from ..scen import Std
 
 PROP = 'C12'
@@ -32,6 +32,15 @@ class Mon(Monitor):
                     if r.addr == c.addr and r.qos and how == 'err':
                         out.append(V('loss', 'loss-failed-publish/%s' % val,
                                      'persistent connection lost and request %d failed with %s' % (r.idx, val)))
+            elif not c.n_connects:
+                # no CONNECT was ever sent on this connection: it was opened in neither mode, and its loss is no reason to
+                # fail what a persistent session keeps for the address
+                self.see('loss-before-connect')
+                for (r, how, val, isr) in fr:
+                    if r.addr == c.addr and r.qos and how == 'err' and r.conn < c.idx and w.session_alive(r):
+                        out.append(V('loss', 'loss-before-connect-failed-publish/%s' % val,
+                                     'a protocol that never sent CONNECT lost its transport and request %d of the persistent '
+                                     'session failed with %s' % (r.idx, val)))
             elif c.n_connects and c.clean:
                 # clean connection died: everything carried over must be failed by now (SessionCleared or the loss)
                 for r in pubs(w, c.addr):
@@ -109,6 +118,19 @@ class Mon(Monitor):
                                          'request %d of the discarded session failed with %s' % (r.idx, r.fires[0][2])))
                         elif r.failed and r.fires[0][0] >= c.connect_step:
                             self.see('session-cleared')
+            # (2b) "releases held-back messages as the window allows": after the CONNACK step nothing accepted is still
+            # unsent while fewer publishes than the window await their first acknowledgement
+            if not c.lost and c.open:
+                ps = pubs(w, a)
+                infl = [e for e in ps if e.qos and e.tx and e.pending and w.session_alive(e) and
+                        not (e.acked('PUBACK') or e.acked('PUBREC'))]
+                unsent = [e for e in ps if accepted(e) and not e.tx and w.session_alive(e) and (e.qos == 0 or e.pending)]
+                if unsent and (unsent[0].qos == 0 or len(infl) < c.window):
+                    out.append(V('heldback', 'held-back-not-released-at-connack/q%d' % unsent[0].qos,
+                                 'after CONNACK %d publishes await their first ack, window is %d, request %d still unsent' % (
+                                     len(infl), c.window, unsent[0].idx)))
+                elif unsent:
+                    self.see('held-back-kept-by-full-window')
             # (3) requests of the new connection itself are not failed by the resumption
             for (r, how, val, isr) in fr:
                 if r.conn == c.idx and how == 'err' and not c.lost:
@@ -179,6 +201,20 @@ def scenarios(ctx):
     out.append(Std('pub-reenter-connected', profile='pub', init=CONNECTED_P, connects=[(False, 0, 4)],
                    reenter=('ok:connect@1>pub1', 'ok:connect@1>pub2'), reconnects=[(False, 0, 4), (True, 0, 4)], pub_qos=(1, 2), windows=(1, 2),
                    budgets=dict(pub=2, ack=1, lose=1, rebuild=1, connect=1, connack=1, setwin=1, tick=0 if q else 1)))
+    # the transport of a rebuilt protocol is lost before the application has called connect() on it
+    out.append(Std('pub-lost-before-connect', profile='pub', init=CONNECTED_P + (('setwin', 0, 2),), connects=[(False, 0, 4)],
+                   reconnects=[(False, 0, 4), (True, 0, 4)], pub_qos=(1, 2), lose_new=True,
+                   budgets=dict(pub=2, ack=1, lose=2, rebuild=2, connect=1, connack=1, tick=0 if q else 1)))
+    # more messages than the window across a loss: part acknowledged/released, part in flight, part held back
+    out.append(Std('pub-w2-queue', profile='pub', init=CONNECTED_P + (('setwin', 0, 2),), connects=[(False, 0, 4)],
+                   reconnects=[(False, 0, 4)], pub_qos=(1, 2), windows=(1, 3),
+                   budgets=dict(pub=3, ack=1 if q else 2, lose=1, rebuild=1, connect=1, connack=1, setwin=1)))
+    # one factory, two addresses: a clean connection (or its loss) on one address while the other keeps a persistent session
+    out.append(Std('two-addresses', profile='pub', naddr=2, pub_qos=(1, 2),
+                   init=(('connect', 0, False, 0, 4), ('connack', 0, 0, False), ('setwin', 0, 2)),
+                   connects=[(True, 0, 4)], reconnects=[(False, 0, 4)],
+                   addr_budgets=[dict(pub=2, ack=1, lose=1, rebuild=1, connect=1, connack=1),
+                                 dict(connect=1, connack=1, lose=1, pub=1)]))
     out.append(Std('pubsub-async', profile='pubsub', mode='async', init=CONNECTED_P, connects=[(False, 0, 4)],
                    reconnects=[(False, 0, 4), (True, 0, 4)], pub_qos=(1, 2),
                    budgets=dict(pub=2, ack=2, tick=1, lose=1, disconnect=1, rebuild=2, connect=2, connack=2)))
@@ -189,4 +225,4 @@ def run(ctx):
     ctx.rule = 'BFS over symbolic event histories; state = canonical object graph + request table + budgets'
     for scn in scenarios(ctx):
         ctx.explore(scn, Mon)
-    ctx.assumptions = ['a rebuilt protocol is not lost before connect() is called on it (DESIGN 6, not driven)']
+    ctx.assumptions = ['a connection lost before connect() was called on it counts as opened in neither mode: it fails nothing of a persistent session (scenario pub-lost-before-connect)']
